@@ -1017,6 +1017,24 @@ func (e *SEnv) call(x *SCall) Val {
 			n.locSt = e.headSt
 			n.headSt = nil
 			return n.eval(x.Args[0])
+		case "$headof":
+			// $headof(k, e): e at the start of the current iteration of loop k (an
+			// enclosing loop); usable in invariants and step clauses of inner loops
+			k, _ := strconv.Atoi(x.Args[0].(*SInt).V)
+			var hs *State
+			for _, li := range e.fr.loops {
+				if li.ord == k {
+					hs = li.headSt
+				}
+			}
+			if hs == nil {
+				e.fail("$headof(%d, ...): loop %d has not been entered", k, k)
+			}
+			n := e.sub()
+			n.cur = hs
+			n.locSt = hs
+			n.headSt = nil
+			return n.eval(x.Args[1])
 		case "$headmem":
 			// memory (heap, maps) as at the start of the iteration, locals as they are now
 			if e.headSt == nil {
